@@ -149,7 +149,13 @@ func (h *Header) BucketHash(key []byte) uint {
 	n := uint64(h.NumBuckets)
 	r := (-n) % n
 	for u < r {
-		u = hashUint64(u)
+		next := hashUint64(u)
+		if next == u {
+			// Fixed point of the permutation (hashUint64(0) == 0): re-hashing cannot
+			// leave the biased range, so stop instead of spinning forever.
+			break
+		}
+		u = next
 	}
 	return uint(u % n)
 }
